@@ -73,6 +73,8 @@ pub fn c01() -> EngineProp {
             (Profile::Vis, 6000, 200_000),
             (Profile::Periodic, 3000, 100_000),
             (Profile::Related, 3000, 100_000),
+            (Profile::Split, 12000, 400_000),
+            (Profile::Tight, 12000, 400_000),
         ],
         nontrivial: |s| {
             has(s, "frame_without_tick_between_ops")
@@ -94,7 +96,7 @@ pub fn c02() -> EngineProp {
     EngineProp {
         id: "C02",
         oracles: Oracles { values: true, ..Default::default() },
-        profiles: vec![(Profile::Lossy, 16000, 600_000), (Profile::General, 9000, 300_000), (Profile::Structural, 5000, 200_000), (Profile::Related, 3000, 100_000)],
+        profiles: vec![(Profile::Lossy, 16000, 600_000), (Profile::General, 9000, 300_000), (Profile::Structural, 5000, 200_000), (Profile::Related, 3000, 100_000), (Profile::Split, 16000, 500_000), (Profile::Tight, 6000, 200_000)],
         nontrivial: |s| has(s, "mut_overtook_upd") || has(s, "mut_reordered") || has(s, "mut_dropped"),
         rule: "cases as C01; after EVERY client frame each mapped entity's continuously replicated components are compared with the recorded server snapshot \
                at the entity's ConfirmHistory::last_tick (all components against the same tick), once-components against the set of server values up to that tick, \
@@ -107,7 +109,7 @@ pub fn c03() -> EngineProp {
     EngineProp {
         id: "C03",
         oracles: Oracles { structure: true, ..Default::default() },
-        profiles: vec![(Profile::Structural, 16000, 600_000), (Profile::General, 8000, 300_000), (Profile::Vis, 18000, 400_000), (Profile::Related, 2000, 100_000)],
+        profiles: vec![(Profile::Structural, 16000, 600_000), (Profile::General, 8000, 300_000), (Profile::Vis, 18000, 400_000), (Profile::Related, 2000, 100_000), (Profile::Tight, 20000, 600_000)],
         nontrivial: |s| has(s, "frame_without_tick_between_ops") || has(s, "multi_upd_one_client_frame") || has(s, "vis_change"),
         rule: "cases as C01 with a structure-heavy profile; after EVERY client frame: ServerUpdateTick never decreases and is 0 or a tick at which an update message \
                was sent to this client; key set of the entity map, its inverse, Replicated markers and per-entity component sets equal the recorded structure the \
@@ -135,7 +137,7 @@ pub fn c09() -> EngineProp {
     EngineProp {
         id: "C09",
         oracles: Oracles { converge: true, values: true, structure: true, session: true, ev_once: true, ev_tick: true, ..Default::default() },
-        profiles: vec![(Profile::Faults, 30000, 1_000_000)],
+        profiles: vec![(Profile::Faults, 30000, 1_000_000), (Profile::Sessions, 30000, 1_000_000)],
         nontrivial: |s| {
             (has(s, "disconnect") || has(s, "server_restart"))
                 && (has(s, "disc_updates_in_flight")
@@ -170,7 +172,7 @@ pub fn c04() -> EngineProp {
     EngineProp {
         id: "C04",
         oracles: Oracles { ev_tick: true, ..Default::default() },
-        profiles: vec![(Profile::Events, 30000, 800_000)],
+        profiles: vec![(Profile::Events, 30000, 800_000), (Profile::Events3, 30000, 800_000)],
         nontrivial: |s| has(s, "event_overtook_upd"),
         rule: "world steps plus server event emissions of five kinds (mapped dependent, independent, unordered, unreliable, trigger with target) in any frame, \
                per-channel delivery so events overtake pending update messages; oracle: a dependent event is seen by game logic only at an update tick >= the tick \
@@ -184,7 +186,7 @@ pub fn c05() -> EngineProp {
     EngineProp {
         id: "C05",
         oracles: Oracles { ev_once: true, ..Default::default() },
-        profiles: vec![(Profile::Events, 24000, 600_000), (Profile::Auth, 8000, 200_000)],
+        profiles: vec![(Profile::Events, 24000, 600_000), (Profile::Auth, 8000, 200_000), (Profile::Events3, 16000, 400_000), (Profile::Sessions, 8000, 200_000)],
         nontrivial: |s| s.semits.len() + s.cemits.len() >= 3 && (s.clients.len() >= 2),
         rule: "sequences of emissions of 10 event types in both directions, all send modes, clients connecting / authorizing / disconnecting at generated points, \
                legal per-channel delivery; oracle: model of MUST / MAY / MUST-NOT recipient sets per emission; at quiescence reliable events seen exactly once by MUST, \
